@@ -1,7 +1,7 @@
 (* C10 — nearest-centre assignment and per-trajectory bookkeeping are exact.
    gen_partition_indices / gen_partition_list are regenerated from enspara/ra/ra.py on every run. *)
 From Coq Require Import List ZArith QArith.
-From EV Require Import PySlice PartitionBase PartitionGen Cluster ClusterBase Partition PartitionProofs KcGuardBase ClusterGen ClusterSkel ClusterGenProofs PartitionSkel UtilGenProofs PartitionAddress.
+From EV Require Import PySlice PartitionBase PartitionGen Cluster ClusterBase Partition PartitionProofs KcGuardBase ClusterGen ClusterSkel ClusterGenProofs PartitionSkel UtilGenProofs PartitionAddress BatchBudget.
 Import ListNotations.
 
 (* every frame gets a centre at minimal distance and exactly that distance; ties go to the first
@@ -123,6 +123,12 @@ Example c10_address_example :
   gen_partition_indices [2]%Z [2; 1; 3]%Z = [(1, 0)]%Z /\ nth 0 (nth 1 [[10; 11]; [12]; [13; 14; 15]]%Z []) 0%Z = 12%Z.
 Proof. vm_compute. repeat split; reflexivity. Qed.
 Print Assumptions c10_address_example.
+
+(* batch_reassign's batches respect the frame budget: a batch of two or more trajectories holds
+   strictly fewer than batch_size frames (a single over-long trajectory is a batch of its own) *)
+Theorem c10_batches_respect_budget : forall lens bs, Forall (batch_ok bs lens) (compute_batches lens bs).
+Proof. exact compute_batches_budget. Qed.
+Print Assumptions c10_batches_respect_budget.
 
 Example c10_example :
   gen_partition_indices [0; 2; 3; 3; 9; 4]%Z [3; 1; 4; 2]%Z = [(0, 0); (0, 2); (1, 0); (1, 0); (3, 1); (2, 0)]%Z /\
